@@ -293,6 +293,13 @@ class CallsMixin:
     def b_getattr(self, args, kwargs, node):
         name = simp(args[1].t)
         if not z3.is_string_value(name):
+            base = args[0]
+            k = base.kind.inner if isinstance(base, V) and isinstance(base.kind, K.Opt) else getattr(base, 'kind', None)
+            dyn = getattr(self.w, 'dynamic_getattr', {})
+            if isinstance(k, K.Ref):
+                for c in self.w.mro(k.cls):
+                    if c in dyn:
+                        return PyObj('method', self_=base, contract=self.w.contracts[dyn[c]])
             raise Unsupported('getattr with symbolic name')
         attr = name.as_string()
         if isinstance(args[0], PyObj) and args[0].tag == 'exc':
